@@ -1,12 +1,46 @@
 (** C19 - Database upgrades apply each pending migration once, in order, or
-    not at all.  Property theorems only; proofs are in Migrate/MigrateProofs.v. *)
+    not at all.  Property theorems only; proofs are in Migrate/MigrateProofs.v,
+    the model in Migrate/Migrate.v.
+
+    What each theorem rests on (three different things):
+
+    MODEL      the definition of the Gallina functions ([versions_to_apply],
+               [upgrade_one], [upgrade_all], [call_in_update]) transcribed from
+               walletdb/migration/manager.go and from the call site in
+               wallet/wallet.go.  That the transcription is right is NOT
+               proved; it is what the correspondence run compares.
+    FACT       a boolean regenerated from the repository's source by
+               lib/extract_c19.py into Generated/MigrateFacts.v and bundled as
+               [repo_code]; the proofs below take [<fact> repo_code = true] as
+               a premise discharged by [eq_refl], so this file does not compile
+               against a tree where the fact is false ([C19_premises_needed]
+               shows what goes wrong then).  The facts:
+                 mig_error_returned   upgrade returns a migration's error at once
+                 setv_error_returned  upgrade returns SetVersion's error
+                 mgr_error_returned   Upgrade returns a service's error at once
+                 one_update           every function calling migration.Upgrade
+                                      does so once, inside ONE walletdb.Update
+                                      closure, with no loop around either
+                 update_gets_error    that closure returns Upgrade's error
+    ASSUMED    walletdb.Update commits iff its closure returned nil and
+               otherwise restores the state (property C11, modelled here by
+               [call_in_update]'s [if]); the migration functions themselves are
+               opaque state transformers that may fail after having written.
+
+    CORRESPONDENCE (lib/c19.py, harness/cmd/c19) ties MODEL to the code: the
+    instrumented managers through migration.Upgrade (one and two services, a
+    failure at every position, a failing SetVersion) and the real wtxmgr /
+    waddrmgr managers on old-version databases with a write failure injected
+    at every write of the upgrade, through wallet.Open (the repository's call
+    site) and directly. *)
 From Verif Require Import Base.Prelude Migrate.Migrate Migrate.MigrateProofs.
 Local Open Scope N_scope.
 
 (** The pending list is exactly the declared entries numbered above the stored
     version (a permutation of the filter: each once, nothing else), whatever
     the declaration order, in ascending order - strictly ascending when the
-    declared numbers are distinct. *)
+    declared numbers are distinct.
+    Rests on: MODEL only ([versions_to_apply]); no fact, no transaction. *)
 Theorem C19_pending_exact : forall cur vs,
   Permutation (versions_to_apply cur vs) (filter (fun v => cur <? num v) vs)
   /\ StronglySorted le_num (versions_to_apply cur vs)
@@ -23,55 +57,169 @@ Qed.
 Print Assumptions C19_pending_exact.
 
 (** Success: every pending non-nil migration was invoked, once, in pending
-    order, and the latest version is recorded. *)
-Theorem C19_success : forall vs s s' inv,
-  upgrade vs s = (Ok, s', inv) ->
-  stored s' = latest vs /\
-  inv = map num (filter invocable (versions_to_apply (stored s) vs)).
+    order, and the latest version is recorded.
+    Rests on: MODEL ([upgrade_one]: loop over the pending list, then
+    SetVersion(latest)); FACTS mig_error_returned (otherwise a failed
+    migration can hide behind an [Ok]), setv_error_returned (otherwise [Ok]
+    without the version written), mgr_error_returned and one_update (shape of
+    the call).  Independent of the transaction's roll-back. *)
+Theorem C19_success : forall m s s' inv,
+  upgrade repo_code m s = (Ok, s', inv) ->
+  stored s' = latest (table m) /\
+  inv = map num (filter invocable (versions_to_apply (stored s) (table m))).
 Proof.
-  intros vs s s' inv H. split.
-  - exact (upgrade_ok_version vs s s' inv H).
-  - exact (upgrade_ok_invoked vs s s' inv H).
+  intros m s s' inv H. split.
+  - exact (upgrade_ok_version repo_code m s s' inv eq_refl eq_refl eq_refl H).
+  - exact (upgrade_ok_invoked repo_code m s s' inv eq_refl eq_refl eq_refl H).
 Qed.
 Print Assumptions C19_success.
 
 (** Failure at any position: only the pending migrations up to the failing
-    one ran, and version and data are unchanged once the transaction aborts. *)
-Theorem C19_failure : forall vs s n s' inv,
-  upgrade vs s = (ErrMigration n, s', inv) ->
+    one ran, and version and data are unchanged.
+    [s' = s] rests on: FACTS one_update and update_gets_error (the writes the
+    migrations made before the failure - including the failing one's own - are
+    undone by nothing but the enclosing transaction's roll-back, which happens
+    only if the whole call is inside one Update that sees the error),
+    mgr_error_returned; ASSUMED C11.  It is NOT true by the definition of the
+    upgrade: [upgrade_one]'s working copy does carry those writes
+    ([C19_premises_needed]).
+    The invoked list rests on: MODEL and FACT mig_error_returned. *)
+Theorem C19_failure : forall m s n s' inv,
+  upgrade repo_code m s = (ErrMigration n, s', inv) ->
   s' = s /\
   exists l1 v l2,
-    versions_to_apply (stored s) vs = l1 ++ v :: l2 /\
+    versions_to_apply (stored s) (table m) = l1 ++ v :: l2 /\
     existsb fails l1 = false /\ fails v = true /\ num v = n /\
     inv = map num (filter invocable l1) ++ [n].
 Proof.
-  intros vs s n s' inv H. split.
-  - apply (upgrade_error_unchanged vs s _ s' inv H). discriminate.
-  - exact (upgrade_fail_invoked vs s n s' inv H).
+  intros m s n s' inv H. split.
+  - apply (upgrade_error_unchanged repo_code m s _ s' inv eq_refl eq_refl eq_refl H). discriminate.
+  - exact (upgrade_fail_invoked repo_code m s n s' inv eq_refl eq_refl eq_refl H).
 Qed.
 Print Assumptions C19_failure.
 
+(** A pending migration that fails is never reported as success.
+    Rests on: MODEL; FACTS mig_error_returned, mgr_error_returned, one_update. *)
+Theorem C19_failure_reported : forall m s o s' inv,
+  stored s <= latest (table m) ->
+  existsb fails (versions_to_apply (stored s) (table m)) = true ->
+  upgrade repo_code m s = (o, s', inv) -> o <> Ok.
+Proof. exact (fun m s o s' inv => upgrade_failing_not_ok repo_code m s o s' inv eq_refl eq_refl eq_refl). Qed.
+Print Assumptions C19_failure_reported.
+
 (** A database newer than the software is refused without modification and
-    without running anything; and every non-Ok outcome leaves it unchanged. *)
-Theorem C19_reversion : forall vs s,
-  latest vs < stored s -> upgrade vs s = (ErrReversion, s, []).
-Proof. exact upgrade_reversion. Qed.
+    without running anything.
+    Rests on: MODEL (the comparison precedes every write in [upgrade_one], so
+    there is nothing to roll back: update_gets_error is not needed); FACTS
+    mgr_error_returned (the refusal reaches the caller), one_update (shape). *)
+Theorem C19_reversion : forall m s,
+  latest (table m) < stored s -> upgrade repo_code m s = (ErrReversion, s, []).
+Proof. exact (fun m s => upgrade_reversion repo_code m s eq_refl eq_refl). Qed.
 Print Assumptions C19_reversion.
 
-Theorem C19_error_unchanged : forall vs s o s' inv,
-  upgrade vs s = (o, s', inv) -> o <> Ok -> s' = s.
-Proof. exact upgrade_error_unchanged. Qed.
+(** Every non-Ok outcome (refusal, failed migration, failed SetVersion) leaves
+    version and data unchanged.
+    Rests on: FACTS one_update, update_gets_error, mgr_error_returned; ASSUMED
+    C11 - as for [C19_failure]. *)
+Theorem C19_error_unchanged : forall m s o s' inv,
+  upgrade repo_code m s = (o, s', inv) -> o <> Ok -> s' = s.
+Proof. exact (fun m s o s' inv => upgrade_error_unchanged repo_code m s o s' inv eq_refl eq_refl eq_refl). Qed.
 Print Assumptions C19_error_unchanged.
 
+(** Several services upgraded by one call (wallet.Open: transaction store and
+    address manager): whatever goes wrong in whichever service, the committed
+    state of EVERY service is what it was - an upgrade already applied to an
+    earlier service in the same call is rolled back with it.
+    Rests on: FACTS one_update, update_gets_error; ASSUMED C11. *)
+Theorem C19_database_atomic : forall ms ss o ss' invs,
+  open_upgrade repo_code ms ss = (o, ss', invs) -> o <> Ok -> ss' = ss.
+Proof. exact (fun ms ss o ss' invs => open_atomic repo_code ms ss o ss' invs eq_refl eq_refl). Qed.
+Print Assumptions C19_database_atomic.
+
+(** If any service's stored version is newer than its table, the call fails and
+    no service is modified.
+    Rests on: MODEL; FACTS mgr_error_returned (else the loop goes on and may
+    end with [Ok]), one_update, update_gets_error; ASSUMED C11. *)
+Theorem C19_newer_refused_untouched : forall ms ss o ss' invs,
+  Exists (fun p => latest (table (fst p)) < stored (snd p)) (combine ms ss) ->
+  open_upgrade repo_code ms ss = (o, ss', invs) -> o <> Ok /\ ss' = ss.
+Proof. exact (fun ms ss o ss' invs => open_newer_refused repo_code ms ss o ss' invs eq_refl eq_refl eq_refl). Qed.
+Print Assumptions C19_newer_refused_untouched.
+
+(** If a pending migration of any service fails (no service being newer), the
+    call fails and no service is modified.
+    Rests on: MODEL; all FACTS but setv_error_returned; ASSUMED C11. *)
+Theorem C19_failed_migration_untouched : forall ms ss o ss' invs,
+  Forall (fun p => stored (snd p) <= latest (table (fst p))) (combine ms ss) ->
+  Exists (fun p => existsb fails (versions_to_apply (stored (snd p)) (table (fst p))) = true)
+         (combine ms ss) ->
+  open_upgrade repo_code ms ss = (o, ss', invs) -> o <> Ok /\ ss' = ss.
+Proof.
+  exact (fun ms ss o ss' invs =>
+           open_failing_unchanged repo_code ms ss o ss' invs eq_refl eq_refl eq_refl eq_refl).
+Qed.
+Print Assumptions C19_failed_migration_untouched.
+
+(** Success of the call = success of every service's own upgrade, whose
+    working copy is committed (so [C19_success]'s two clauses hold for each).
+    Rests on: MODEL; FACTS mgr_error_returned, one_update. *)
+Theorem C19_all_succeed : forall ms ss ss' invs,
+  open_upgrade repo_code ms ss = (Ok, ss', invs) ->
+  Forall (fun p => fst (fst (upgrade_one repo_code (fst p) (snd p))) = Ok) (combine ms ss) /\
+  ss' = map (fun p => snd (fst (upgrade_one repo_code (fst p) (snd p)))) (combine ms ss) /\
+  invs = map (fun p => snd (upgrade_one repo_code (fst p) (snd p))) (combine ms ss).
+Proof. exact (fun ms ss ss' invs => open_ok_each repo_code ms ss ss' invs eq_refl eq_refl). Qed.
+Print Assumptions C19_all_succeed.
+
+(** The premises are needed: with any one fact false (the others true) there
+    is a history violating the property - versions 1 and 2 staying applied and
+    recorded after migration 3 of 3 failed (a transaction per version); the
+    writes of 1, 2 and half of 3 committed (error hidden from Update); a failed
+    migration counted as applied (error dropped in upgrade); the second
+    service upgraded and committed after the first failed (error dropped in
+    Upgrade); success without the version (SetVersion's error dropped).
+    Rests on: MODEL (evaluation of its other branches). *)
+Theorem C19_premises_needed :
+  (let c := {| mig_error_returned := true; setv_error_returned := true; mgr_error_returned := true;
+               one_update := false; update_gets_error := true |} in
+   upgrade c (plain three) {| stored := 0; data := [] |}
+   = (ErrMigration 3, {| stored := 2; data := [10; 20] |}, [1; 2; 3])) /\
+  (let c := {| mig_error_returned := true; setv_error_returned := true; mgr_error_returned := true;
+               one_update := true; update_gets_error := false |} in
+   upgrade c (plain three) {| stored := 0; data := [] |}
+   = (ErrMigration 3, {| stored := 0; data := [10; 20; 30] |}, [1; 2; 3])) /\
+  (let c := {| mig_error_returned := false; setv_error_returned := true; mgr_error_returned := true;
+               one_update := true; update_gets_error := true |} in
+   upgrade c (plain ({| num := 4; vmig := MOk 40 |} :: three)) {| stored := 0; data := [] |}
+   = (Ok, {| stored := 4; data := [10; 20; 30; 40] |}, [1; 2; 3; 4])) /\
+  (let c := {| mig_error_returned := true; setv_error_returned := true; mgr_error_returned := false;
+               one_update := true; update_gets_error := true |} in
+   open_upgrade c [plain three; plain [ {| num := 1; vmig := MOk 11 |} ]]
+                [ {| stored := 0; data := [] |}; {| stored := 0; data := [] |} ]
+   = (Ok, [ {| stored := 0; data := [10; 20; 30] |}; {| stored := 1; data := [11] |} ], [[1; 2; 3]; [1]])) /\
+  (let c := {| mig_error_returned := true; setv_error_returned := false; mgr_error_returned := true;
+               one_update := true; update_gets_error := true |} in
+   upgrade c {| table := [ {| num := 1; vmig := MOk 10 |} ]; setv_fails := true |} {| stored := 0; data := [] |}
+   = (Ok, {| stored := 0; data := [10] |}, [1])).
+Proof.
+  exact (conj needs_one_update (conj needs_error_to_update (conj needs_migration_error
+          (conj needs_manager_error needs_setversion_error)))).
+Qed.
+Print Assumptions C19_premises_needed.
+
 (** Non-vacuity: an unordered table with a nil entry, a gap and a failing
-    entry exercises every hypothesis above. *)
+    entry exercises every hypothesis above; two services, the second one newer. *)
 Example C19_nonvacuous :
   let vs := [ {| num := 5; vmig := MOk 50 |}; {| num := 2; vmig := MNil |};
               {| num := 7; vmig := MFail 70 |}; {| num := 3; vmig := MOk 30 |};
               {| num := 1; vmig := MOk 10 |} ] in
-  upgrade vs {| stored := 1; data := [] |}
+  upgrade repo_code (plain vs) {| stored := 1; data := [] |}
     = (ErrMigration 7, {| stored := 1; data := [] |}, [3; 5; 7]) /\
-  upgrade (tl (tl (tl vs)) ++ [ {| num := 6; vmig := MNil |} ]) {| stored := 0; data := [9] |}
+  upgrade repo_code (plain (tl (tl (tl vs)) ++ [ {| num := 6; vmig := MNil |} ])) {| stored := 0; data := [9] |}
     = (Ok, {| stored := 6; data := [9; 10; 30] |}, [1; 3]) /\
-  upgrade vs {| stored := 8; data := [] |} = (ErrReversion, {| stored := 8; data := [] |}, []).
+  upgrade repo_code (plain vs) {| stored := 8; data := [] |} = (ErrReversion, {| stored := 8; data := [] |}, []) /\
+  upgrade repo_code {| table := tl (tl (tl vs)); setv_fails := true |} {| stored := 0; data := [] |}
+    = (ErrSetVersion, {| stored := 0; data := [] |}, [1; 3]) /\
+  open_upgrade repo_code [plain (tl (tl (tl vs))); plain vs] [ {| stored := 0; data := [] |}; {| stored := 9; data := [4] |} ]
+    = (ErrReversion, [ {| stored := 0; data := [] |}; {| stored := 9; data := [4] |} ], [[1; 3]; []]).
 Proof. vm_compute. repeat split. Qed.
